@@ -196,6 +196,28 @@ func verifConstRound(c any) (any, bool, bool) {
 //@ invariant 3: true
 //@ ensures[C17.named] true
 
+
+// ---- C17: the order in which code objects are written --------------------------------------------------------
+// stateFromCode writes Flatten(root); codeFromState rebuilds every parent's children in the order the code objects
+// appear in the file and needs each parent before its children. Marshalling the reloaded code reproduces the same
+// bytes only if Flatten lists the root first and the subtrees of a node's children in the order of c.children
+// (pre-order). Stated with positions: child k of c sits at index 1 + csum(c, k), where csum(c, k) is the total
+// size of the subtrees of children 0..k-1 and flen(c) = 1 + csum(c, len(children)) is the size of c's subtree.
+// Assumed: flen/csum are introduced by these defining equations over the entry heap (they have a solution exactly
+// when the code objects form a finite tree, which the compiler's newChild and codeFromState construct).
+//@ spec flen(u) = uf("flatten.len", int, u)
+//@ spec csum(u, k) = uf("flatten.csum", int, u, k)
+
+//@ func (*Code).Flatten
+//@ props C17
+//@ requires c != nil
+//@ assume[def.flatten] flen(c) == 1 + csum(c, len(c.children)) && csum(c, 0) == 0 && forall(k, 0, len(c.children), flen(c.children[k]) >= 1 && csum(c, k + 1) == csum(c, k) + flen(c.children[k]))
+//@ assume[repr.children.nonnil] forall(k, 0, len(c.children), c.children[k] != nil)
+//@ modifies nothing
+//@ invariant 1: fresh(codes) && len(codes) == 1 + csum(c, iter) && codes[0] == c && forall(k, 0, iter, 0 <= csum(c, k) && csum(c, k) < csum(c, iter) && codes[1 + csum(c, k)] == c.children[k])
+//@ ensures[C17.flatten.root] len(result) == flen(c) && result[0] == c
+//@ ensures[C17.flatten.order] forall(k, 0, len(c.children), 0 <= csum(c, k) && 1 + csum(c, k) < len(result) && result[1 + csum(c, k)] == c.children[k] && csum(c, k) < csum(c, k + 1))
+
 // ---- C05: map iteration on the way to observable output is order independent -------------------------------
 //@ func definitionFromSymbolTable
 //@ props C05
